@@ -89,3 +89,12 @@ Proof.
   { unfold mem_n. apply existsb_exists. exists b. split; [exact Hb|apply N.eqb_refl]. }
   rewrite Hm. reflexivity.
 Qed.
+
+(* while a sequence is being typed in one of the hidden input modes nothing is repeated, whatever is held *)
+Lemma hidden_sequence_suppresses_repeat cfg k code :
+  sq_active (k_seq k) = true -> sq_mode (k_seq k) <> 2 -> handle_repeat cfg k code = Ok [].
+Proof.
+  intros Ha Hm. unfold handle_repeat. rewrite Ha.
+  assert (E : (sq_mode (k_seq k) =? 2) = false) by (apply N.eqb_neq; exact Hm).
+  rewrite E. reflexivity.
+Qed.
